@@ -8,7 +8,7 @@ ROWS = {
  'C19': dict(level='exploration', design='3/C19',
    technique='property-based testing: model-based operation histories (Hypothesis) + bounded exhaustive sequence enumeration, lock-step in-memory/shelve backends',
    text='Generated and exhaustively enumerated Cache/Population histories under a frozen clock are compared step by step with a reference dict model and between the in-memory and file-backed cache; exploration, not proof.',
-   note='Frozen clock via module-global rebinding; reference model is a transcription of the statement; exact-equality instants not generated.'),
+   note='Frozen clock via module-global rebinding; reference model is a transcription of the statement; in histories exact-equality instants are not generated; the expiry-instant part queries at the instant itself (int / string / struct_time expiries) and there requires only that all accessors and representations agree.'),
  'C18': dict(level='exploration', design='3/C18',
    technique='property-based testing: model-based IdentDB operation histories (Hypothesis) + bounded exhaustive sequences; generated codec round-trip/injectivity',
    text='Generated and exhaustively enumerated IdentDB histories on dict and shelve stores are checked after every step against a reference map (identifier -> owner, withdrawn set); code/decode round trip and injectivity over arbitrary Unicode fields.',
@@ -20,7 +20,7 @@ ROWS = {
  'C15': dict(level='exploration', design='3/C15',
    technique='property-based testing: generated inputs with single-parameter mutations, stateful op histories + bounded exhaustive sequences, Hypothesis-drawn thread schedules under a settrace baton scheduler; independent RSA verification with cryptography',
    text='Signed redirect URLs are verified independently over the transmitted octets under every candidate certificate; mutated queries must not verify; op histories and line-level thread interleavings of sign/verify by entities with different keys must keep every signature under its requester\'s key.',
-   note='Line-granular interleavings of 2-3 threads with bounded switch points; cryptography package as verification oracle.'),
+   note='Line-granular interleavings of 2-3 threads with bounded switch points; cryptography package as verification oracle; real Saml2Client/Server objects from configurations with encryption key pair variants; EC/Ed25519/DSA certificates must never verify.'),
  'C12': dict(level='exploration', design='3/C12',
    technique='property-based testing: exhaustive enumeration over all schema classes (deterministic full/bare instances) + Hypothesis instance trees; round-trip, byte-stability, independent ElementTree intent oracle, hand-transcribed XSD sequence table, foreign-content metamorphic check',
    text='Every SamlBase class of the schema modules is serialised and parsed back; harness-side projection equality, second serialisation byte-identical, plain ElementTree must see each generated attribute/child under its declared name in sequence order (core classes also against a hand transcription of the published XSD order), injected foreign children/attributes must survive.',
@@ -28,7 +28,7 @@ ROWS = {
  'C13': dict(level='exploration', design='3/C13',
    technique='property-based testing: exhaustive single-fault enumeration over all (class, constraint, placement) triples + Hypothesis trees with 0/1 fault, judged by a reference validator written from the statement',
    text='For every class a valid instance must pass validation and every single declared-constraint fault (required attribute, occurrence bound, typed value/enumeration), planted at the root or under parent/grandparent classes, must be rejected; both directions checked.',
-   note='Reference validator decides only clearly valid/invalid lexical forms; maxlen facets and grey-zone spellings are not generated; class-specific verify() rules are honoured by the valid-instance generator.'),
+   note='Reference validator decides only clearly valid/invalid lexical forms; near-miss spellings (valid value plus prefix/suffix/inner junk) are generated for every checked type; three lenient lexical forms the library accepts are open known findings excluded by exact spelling; maxlen facets are not generated; class-specific verify() rules are honoured by the valid-instance generator.'),
  'C02': dict(level='exploration', design='3/C02',
    technique='exhaustive enumeration of the 192-row option/signature/corruption table + property-based generated identities per row; reference decision predicate (iff oracle)',
    text='Every combination of the three SP signature options, plain/encrypted assertion, what was signed and which signature was corrupted (two ways) is built by the harness and delivered to the SP; acceptance must equal the documented predicate in both directions.',
@@ -66,7 +66,7 @@ ROWS = {
    text='A message is accepted only if the key that actually signed it is a signing (or use-less) metadata key of the claimed Issuer, or - setting off, no such key in metadata - the embedded certificate is the signer\'s; embedded certificates, RSA key values, other entities\' keys, encryption-only keys and unknown issuers must not authenticate.',
    note=TOOL_NOTE + ' including its KeyInfo-first key search; documents built and signed by the harness; frozen clock.'),
  'C01': dict(level='exploration', design='3/C01',
-   technique='property-based testing: Hypothesis mutation scripts (20 tree operators incl. parametrised signature-wrapping constructions) over validly signed documents + enumerated XSW catalogue, oracle = independent signature-coverage predicate (digests the element itself, no ID lookup / node search) and identity projection',
+   technique='property-based testing: Hypothesis mutation scripts (20 tree operators incl. parametrised signature-wrapping constructions) over validly signed documents + enumerated XSW catalogue + enumerated layered-encryption layouts (harness-written ciphertexts holding several nodes / nested EncryptedData), oracle = independent signature-coverage predicate (digests the element itself, no ID lookup / node search) and identity projection',
    text='Whenever an SP with a signature requirement accepts a rearranged signed response, every assertion, subject and attribute value it holds must equal content of an element covered by its own valid enveloped signature (single Reference to its own ID, verifying over present content under the issuer metadata key), and each enabled requirement must be met by such an element of the right kind; rejections are not judged.',
    note=TOOL_NOTE + ' including the first-Signature-in-document-order search that makes wrapping possible; attacks through unmodelled xmlsec features are out of reach.'),
  'C08': dict(level='exploration', design='3/C08',
@@ -75,10 +75,10 @@ ROWS = {
    note=TOOL_NOTE + '; frozen clock; one open known finding (SOAP + response signature + encryption) excluded by matcher.'),
  'C17': dict(level='exploration', design='3/C17',
    technique='property-based testing: token non-occurrence + decrypt-with-every-pool-key oracle on IdP output; metamorphic plain-vs-encrypted verdict relation and explicit bad-signature cases (incl. encrypted advice assertions) on the SP; enumerated undecryptable cases',
-   text='IdP half: for generated high-entropy identities and every sign/encrypt/advice/PEFIM/self-contained option and SP key-descriptor layout, no token may occur in the emitted bytes and only the SP\'s first private key decrypts. SP half: a fault inside the assertion must not be accepted encrypted when the same document is rejected in clear; decrypted advice assertions with bad signatures must be refused; content encrypted for a foreign key yields no identity.',
+   text='IdP half: for generated high-entropy identities and every sign/encrypt/advice/PEFIM/self-contained option and SP key-descriptor layout, no token may occur in the emitted bytes and only the private key of the SP\'s first metadata certificate (or of the certificate the caller named) decrypts. SP half: a fault inside the assertion must not be accepted encrypted when the same document is rejected in clear; decrypted advice assertions with bad signatures must be refused; content encrypted for a foreign key yields no identity.',
    note=TOOL_NOTE + ' (3DES/AES-CBC, RSA-1_5/OAEP); frozen clock; SP acceptance of non-self-contained plaintext is not judged.'),
  'C10': dict(level='exploration', design='3/C10',
-   technique='property-based testing: generated request type x binding encoding x signing x receiver setting x mutation (field edits, near-miss destinations, IssueInstant edges, wrong type/root, garbled encodings, tree mutation scripts); conjunction oracle evaluated by independent readers on the raw document',
+   technique='property-based testing: generated request type x binding encoding x signing x receiver setting x mutation (field edits, near-miss destinations, IssueInstant edges, wrong type/root, garbled encodings, tree mutation scripts) with Destination and IssueInstant varied independently + enumerated XSW catalogue over signed requests of every type and binding; conjunction oracle evaluated by independent readers on the raw document',
    text='Whenever an IdP or SP hands a request object to the application, the raw document must be of the expected type, carry ID/Version 2.0/IssueInstant within the window, a Destination that is absent or exactly an own endpoint for the service, and - if it carries a signature or the receiver wants signed requests - a valid enveloped signature of the request element under the issuer\'s metadata key; unmodified valid requests must be accepted.',
    note=TOOL_NOTE + '; frozen clock; SOAP-delivered signed third-party requests are not required to be accepted (re-serialisation, see C08 finding).'),
  'C20': dict(level='fault_enumeration', design='3/C20',
